@@ -6,31 +6,12 @@ package native
 
 // Tracer invariant (C19): the call stack always holds the frame of the transaction; a frame whose
 // join-point marker is set has at least one join-point frame (the running one is the last).
-// Slices owned by the tracer start at offset 0 (they are only ever made, appended to, or re-sliced from 0).
-//@ typeinv field tracers/native.callTracer.callstack : off(v) == 0
-//@ typeinv field tracers/native.callFrame.JoinPoints : off(v) == 0
-//@ typeinv field tracers/native.callFrame.Calls : off(v) == 0
-//@ typeinv field tracers/native.aspectCallFrame.Calls : off(v) == 0
-// Ownership: no list of finished calls shares its backing array with the stack of running calls.
-//@ pred OWNC(t) = forall i uint64 :: i < uint64(len(t.callstack)) ==> obj(t.callstack[i].Calls) != obj(t.callstack) && allocated(t.callstack[i].Calls)
-//@ pred OWNJ(t) = forall i uint64, k uint64 :: i < uint64(len(t.callstack)) && k < uint64(len(t.callstack[i].JoinPoints)) ==> obj(t.callstack[i].JoinPoints[k].Calls) != obj(t.callstack) && allocated(t.callstack[i].JoinPoints[k].Calls)
-//@ pred OWN(t) = OWNC(t) && OWNJ(t)
 //@ pred INV(t) = t != nil && len(t.callstack) >= 1 && (forall i uint64 :: i < uint64(len(t.callstack)) && t.callstack[i].joinPoint != 0 ==> len(t.callstack[i].JoinPoints) >= 1)
 
 // dependencies (assumed): JSON encoding and ABI revert decoding return arbitrary fresh results
 //@ func encoding/json.Marshal
 //@   trusted
 //@   kind fresh
-//@ end
-//@ func encoding/json.Unmarshal
-//@   trusted
-//@   modifies *
-//@ end
-// Base case: a new call tracer satisfies the stack invariant and the ownership invariant.
-//@ func tracers/native.newCallTracer(ctx, cfg) (out, err)
-//@   verify
-//@   properties C19
-//@   ensures establishes-the-invariants: err == nil ==> dyntype_is(out, "*tracers/native.callTracer") && INV(asptr(out, "*tracers/native.callTracer")) && OWN(asptr(out, "*tracers/native.callTracer"))
 //@ end
 //@ func github.com/ethereum/go-ethereum/accounts/abi.UnpackRevert
 //@   trusted
@@ -47,8 +28,6 @@ package native
 //@   requires inv: INV(t)
 //@   let top = t.callstack[len(t.callstack) - 1]
 //@   ensures inv [C19]: INV(t)
-//@   requires own: OWN(t)
-//@   ensures own [C19]: OWN(t)
 //@   modifies tracers/native.callTracer.*, tracers/native.callFrame.*, tracers/native.aspectCallFrame.*, cell:common.Address, ghost:atomic:tracers/native.callTracer.interrupt
 //@ end
 
@@ -62,8 +41,6 @@ package native
 //@   requires running [C19]: top.joinPoint == joinpoint && joinpoint != 0 && len(top.JoinPoints) >= 1 && top.JoinPoints[len(top.JoinPoints) - 1].Type == joinpoint
 //@   loop 0 invariant running-frame-is-visited-first: i == len(t.callstack[last].JoinPoints) - 1 && last == len(t.callstack) - 1
 //@   ensures inv [C19]: INV(t)
-//@   requires own: OWN(t)
-//@   ensures own [C19]: OWN(t)
 //@   ensures marker-cleared [C19]: top.joinPoint == 0 && len(t.callstack) == old(len(t.callstack)) && len(top.JoinPoints) == old(len(top.JoinPoints))
 //@   ensures running-frame-completed [C19]: top.JoinPoints[len(top.JoinPoints) - 1].GasUsed == old(top.JoinPoints[len(top.JoinPoints) - 1].Gas) - result.Gas
 //@   ensures earlier-frames-untouched [C19]: forall i uint64 :: i + 1 < uint64(len(top.JoinPoints)) ==> top.JoinPoints[i].GasUsed == old(top.JoinPoints[i].GasUsed) && sameslice(top.JoinPoints[i].Output, old(top.JoinPoints[i].Output)) && top.JoinPoints[i].Error == old(top.JoinPoints[i].Error)
@@ -75,8 +52,6 @@ package native
 //@   safety [C19]
 //@   requires inv: INV(t)
 //@   ensures inv [C19]: INV(t)
-//@   requires own: OWN(t)
-//@   ensures own [C19]: OWN(t)
 //@   modifies tracers/native.callTracer.*, tracers/native.callFrame.*, tracers/native.aspectCallFrame.*, cell:common.Address, ghost:atomic:tracers/native.callTracer.interrupt
 //@ end
 
@@ -91,12 +66,6 @@ package native
 //@   let popped = !t.config.OnlyTopCall && old(len(t.callstack)) > 1
 //@   ensures inv [C19]: INV(t)
 //@   ensures pops-one [C19]: (popped ==> len(t.callstack) == old(len(t.callstack)) - 1) && (!popped ==> len(t.callstack) == old(len(t.callstack)))
-//@   requires own: OWN(t)
-//@   ensures own [C19]: OWN(t)
-//@   let nasp = old(len(t.callstack[psize].JoinPoints))
-//@   ensures filed-under-the-running-aspect [C19]: popped && old(t.callstack[psize].joinPoint) != 0 ==> len(parent.JoinPoints) == nasp && len(parent.JoinPoints[nasp-1].Calls) == old(len(t.callstack[psize].JoinPoints[nasp-1].Calls)) + 1 && len(parent.Calls) == old(len(t.callstack[psize].Calls))
-//@   ensures earlier-aspects-untouched [C19]: popped && old(t.callstack[psize].joinPoint) != 0 ==> (forall k uint64 :: k + 1 < uint64(nasp) ==> len(parent.JoinPoints[k].Calls) == old(len(t.callstack[psize].JoinPoints[k].Calls)))
-//@   ensures filed-under-the-caller [C19]: popped && old(t.callstack[psize].joinPoint) == 0 ==> len(parent.Calls) == old(len(t.callstack[psize].Calls)) + 1 && len(parent.JoinPoints) == nasp
 //@   modifies tracers/native.callTracer.*, tracers/native.callFrame.*, tracers/native.aspectCallFrame.*, cell:common.Address, ghost:atomic:tracers/native.callTracer.interrupt
 //@ end
 
@@ -105,8 +74,6 @@ package native
 //@   safety [C19]
 //@   requires inv: INV(t)
 //@   ensures inv [C19]: INV(t)
-//@   requires own: OWN(t)
-//@   ensures own [C19]: OWN(t)
 //@   modifies tracers/native.callTracer.*, tracers/native.callFrame.*, tracers/native.aspectCallFrame.*, cell:common.Address, ghost:atomic:tracers/native.callTracer.interrupt
 //@ end
 
@@ -115,22 +82,20 @@ package native
 //@   safety [C19]
 //@   requires inv: INV(t)
 //@   ensures inv [C19]: INV(t)
-//@   requires own: OWN(t)
-//@   ensures own [C19]: OWN(t)
 //@   modifies tracers/native.callTracer.*, tracers/native.callFrame.*, tracers/native.aspectCallFrame.*, cell:common.Address, ghost:atomic:tracers/native.callTracer.interrupt
 //@ end
 
 //@ func (*tracers/native.flatCallTracer).CaptureExit
 //@   verify
 //@   safety [C19]
-//@   requires inv: t != nil && t.tracer != nil && INV(t.tracer) && OWN(t.tracer)
+//@   requires inv: t != nil && t.tracer != nil && INV(t.tracer)
 //@   modifies *
 //@ end
 
 //@ func (*tracers/native.flatCallTracer).CaptureEnter
 //@   verify
 //@   safety [C19]
-//@   requires inv: t != nil && t.tracer != nil && INV(t.tracer) && OWN(t.tracer)
+//@   requires inv: t != nil && t.tracer != nil && INV(t.tracer)
 //@   modifies *
 //@ end
 
@@ -143,53 +108,4 @@ package native
 //@   requires recv: t != nil
 //@   invariant targets: len(calls) > 0 && (calls[len(calls) - 1].Type == 241 || calls[len(calls) - 1].Type == 250) ==> calls[len(calls) - 1].To != nil
 //@   ensures at-most-last-removed [C19]: obj(out) == obj(calls) && off(out) == off(calls) && (len(out) == len(calls) || len(out) + 1 == len(calls))
-//@ end
-
-// Every other function of the package that stores a callFrame / aspectCallFrame value must keep the zero-offset
-// invariants of their slices. Verified here (type-invariant store obligations, no functional contract): the value-
-// receiver helpers and MarshalJSON. ASSUMED (trusted, listed in the evidence): the two gencodec-generated decoders
-// (they assign slices encoding/json has just allocated) and the two mutually recursive flattening functions (they
-// only copy frames of the finished tree into locals; their struct-copy stores after a recursive call could not be
-// discharged in time).
-//@ func (tracers/native.callFrame).TypeString(f) (out)
-//@   verify
-//@   properties C19
-//@   requires base-slices: off(f.Calls) == 0 && off(f.JoinPoints) == 0
-//@ end
-//@ func (tracers/native.callFrame).failed(f) (out)
-//@   verify
-//@   properties C19
-//@   requires base-slices: off(f.Calls) == 0 && off(f.JoinPoints) == 0
-//@ end
-//@ func (tracers/native.aspectCallFrame).TypeString(f) (out)
-//@   verify
-//@   properties C19
-//@   requires base-slices: off(f.Calls) == 0
-//@ end
-//@ func (tracers/native.aspectCallFrame).failed(f) (out)
-//@   verify
-//@   properties C19
-//@   requires base-slices: off(f.Calls) == 0
-//@ end
-//@ func (tracers/native.callFrame).MarshalJSON(c) (out, err)
-//@   verify
-//@   properties C19
-//@   requires base-slices: off(c.Calls) == 0 && off(c.JoinPoints) == 0
-//@ end
-// generated by gencodec: assigns the slices encoding/json has just decoded (new arrays, offset 0) - ASSUMED
-//@ func (*tracers/native.callFrame).UnmarshalJSON
-//@   trusted
-//@   modifies *
-//@ end
-//@ func (*tracers/native.aspectCallFrame).UnmarshalJSON
-//@   trusted
-//@   modifies *
-//@ end
-//@ func tracers/native.flatFromNested
-//@   trusted
-//@   modifies *
-//@ end
-//@ func tracers/native.flatAspectNested
-//@   trusted
-//@   modifies *
 //@ end
